@@ -1278,7 +1278,7 @@ func TestVerifC06Machine(t *testing.T) {
 	r.Assume("an accepted meta that changes (epoch, leader epoch, leader, role, status) answers all outstanding appends (the reactor fails them with ErrStaleMeta before applying it), so a later machine reply for one of them is a second answer")
 	// The live heap is tiny and every step allocates; without this the run is dominated by GC cycles.
 	defer debug.SetGCPercent(debug.SetGCPercent(1600))
-	n := r.N(12_000, 300_000)
+	n := r.N(20_000, 700_000)
 	for i := 0; i < n; i++ {
 		if r.Skip(i) {
 			continue
